@@ -372,6 +372,14 @@ class Parser:
         return None
 
     def parse(self, rule: str, call_invalid_rules: bool = False) -> ast.AST | Any | None:
+        try:
+            return self._parse(rule, call_invalid_rules)
+        except RecursionError:
+            # a recursive-descent parser needs stack in proportion to the nesting depth of the source
+            last_token = self._tokenizer.diagnose()
+            self.raise_raw_syntax_error("too many nested constructs", last_token.start, last_token.end)
+
+    def _parse(self, rule: str, call_invalid_rules: bool = False) -> ast.AST | Any | None:
         self.call_invalid_rules = call_invalid_rules
         res = getattr(self, rule)()
 
